@@ -248,7 +248,7 @@ fn test_hostile(case: &HostileCase, st: &mut Stats, counting: bool) -> CaseResul
     }
 }
 
-const RULE: &str = "unrestricted domain, only panics count: (a) untyped histories vec(op,0..=40) incl. calls on and removal of the root and timestamp setters on every backend stack; (b) C14's read/seek and write/seek/flush scripts (zero-length buffers, offsets at 0, len+-1, far, i64::MIN/MAX, u64::MAX) on Mem/Phys/altroot/overlay/EmbeddedFS handles; (c) read, append and create handles used (read, seek, write, flush, drop) after their file, its directory or an ancestor was removed or turned into a file; (d) all 24 operations on every path of the EmbeddedFS path set incl. the root; (e) PhysicalFS roots prepared with std::fs to contain non-UTF-8 names and dangling symlinks, plain and behind altroot/overlay; (f) the same histories, reader scripts and walks through the async port on a tokio current-thread runtime; (g) every async path operation once on an async physical and in-memory filesystem driven by futures::executor and by async-std; timestamp setters also with the ends of the SystemTime range; every call runs under catch_unwind with a recording panic hook; non-trivial = a case containing a root-targeted mutator, a reader positioned outside [0,len], a handle used after removal, a hostile directory entry or an EmbeddedFS root call";
+const RULE: &str = "unrestricted domain, only panics count: (a) untyped histories vec(op,0..=40) incl. calls on and removal of the root and timestamp setters on every backend stack; (b) C14's read/seek and write/seek/flush scripts (zero-length buffers, offsets at 0, len+-1, far, i64::MIN/MAX, u64::MAX) on Mem/Phys/altroot/overlay/EmbeddedFS handles; (c) read, append and create handles used (read, seek, write, flush, drop) after their file, its directory or an ancestor was removed or turned into a file; (d) all 24 operations on every path of the EmbeddedFS path set incl. the root; (e) PhysicalFS roots prepared with std::fs to contain non-UTF-8 names and dangling symlinks, plain and behind altroot/overlay; (f) the same histories, reader scripts and walks through the async port on a tokio current-thread runtime; (g) every async path operation once on an async physical and in-memory filesystem driven by futures::executor and by async-std; timestamp setters also with the ends of the SystemTime range, and (h) every setter with 7 range-end values followed by an append / create session, a copy, reads and walks on four stacks; every call runs under catch_unwind with a recording panic hook; non-trivial = a case containing a root-targeted mutator, a reader positioned outside [0,len], a handle used after removal, a hostile directory entry or an EmbeddedFS root call";
 
 pub fn replay(v: &Value) -> CaseResult {
     let mut st = Stats::default();
@@ -264,6 +264,7 @@ pub fn replay(v: &Value) -> CaseResult {
             test_stale(&case, &mut st, false)
         }
         Some("c13-executors") => executor_sweep().map(|_| ()),
+        Some("c13-range-end-times") => range_end_times().map(|_| ()),
         Some("c13-hostile") => {
             let case = HostileCase {
                 alt: v.get("alt").and_then(|x| x.as_bool()).unwrap_or(false),
@@ -358,6 +359,66 @@ fn executor_sweep() -> Result<u64, Failure> {
         }
     }
     Ok(total)
+}
+
+// ---------------------------------------------------------------------------------------------
+// (h) range-end timestamps followed by sessions and observers
+// ---------------------------------------------------------------------------------------------
+
+fn range_end_times() -> Result<u64, Failure> {
+    let mut n = 0u64;
+    let cfgs = [Cfg::Mem, Cfg::Alt(Box::new(Cfg::Mem), 1), Cfg::Ovl(vec![Cfg::Mem, Cfg::Mem]), Cfg::Phys];
+    let values = [(i64::MAX, 999_999_999u32), (i64::MAX, 0), (i64::MAX - 1, 999_999_999), (i64::MIN + 1, 0), (i64::MIN + 1, 1), (253_402_300_800, 0), (-62_135_596_801, 999_999_999)];
+    for cfg in &cfgs {
+        for (secs, nanos) in values {
+            for field in [TimeField::Created, TimeField::Modified, TimeField::Accessed] {
+                for follow in 0..4u8 {
+                    let what = format!("stack {}: set {:?} to {}s+{}ns, then {}", cfg.render(), field, secs, nanos, ["append session", "create session", "copy_file + metadata", "read + walk"][follow as usize]);
+                    let r = guarded(|| -> Result<(), String> {
+                        let built = build(cfg, &vec![(0, "/d/f".to_string(), Node::File(std::sync::Arc::new(b"x".to_vec())))])?;
+                        let f = at(&built.root, "/d/f").map_err(|e| e.to_string())?;
+                        for target in ["/d/f", "/d"] {
+                            let _ = exec(&built.root, &Op::SetTime(target.to_string(), field, secs, nanos));
+                        }
+                        match follow {
+                            0 => {
+                                if let Ok(h) = f.append_file() {
+                                    let mut h = crate::util::hold(h);
+                                    let _ = h.write_all(b"y");
+                                    let _ = h.flush();
+                                }
+                            }
+                            1 => {
+                                if let Ok(h) = f.create_file() {
+                                    let mut h = crate::util::hold(h);
+                                    let _ = h.write_all(b"z");
+                                    let _ = h.flush();
+                                }
+                            }
+                            2 => {
+                                let _ = exec(&built.root, &Op::CopyFile("/d/f".into(), "/d/g".into()));
+                                let _ = exec(&built.root, &Op::Metadata("/d/g".into()));
+                                let _ = exec(&built.root, &Op::Metadata("/d".into()));
+                            }
+                            _ => {
+                                let _ = exec(&built.root, &Op::Read("/d/f".into()));
+                                let _ = exec(&built.root, &Op::WalkDir(String::new()));
+                                let _ = exec(&built.root, &Op::CreateDirAll("/d/e/f".into()));
+                            }
+                        }
+                        let _ = f.metadata();
+                        Ok(())
+                    });
+                    n += 1;
+                    match r {
+                        Ok(_) => {}
+                        Err(p) => return Err(Failure { message: format!("{}: PANIC: {}", what, p), replay: json!({"kind": "c13-range-end-times"}) }),
+                    }
+                }
+            }
+        }
+    }
+    Ok(n)
 }
 
 fn only_panics(r: CaseResult) -> CaseResult {
@@ -457,6 +518,16 @@ pub fn run(ctx: &RunCtx) -> i32 {
         let (s, f) = run_sharded(ctx, "hostile", ctx.tier.pick(600, 30_000), hostile_strategy, test_hostile);
         stats.merge(s);
         failure = f;
+    }
+    // (h) range-end timestamps
+    if failure.is_none() {
+        match range_end_times() {
+            Ok(n) => {
+                stats.evaluations += n;
+                stats.label_n("range_end_timestamp_scenarios", n);
+            }
+            Err(f) => failure = Some(f),
+        }
     }
     // (g) other executors
     if failure.is_none() {
